@@ -199,6 +199,8 @@ def r4(ctx, facts):
                 cb = facts.body(cp)
                 if cb is None or cb.local_ty(0) != "bool":
                     continue
+                if not any("Node" in cb.local_ty(i) for i in range(2, cb.argc + 1)):
+                    continue      # a bool closure over something that is not a node (e.g. `token.filter(|_| is_token_aware)`) selects no target
                 n += 1
                 reach = set(cg.reachable([cp]).keys()) | {cp}
                 names = set()
@@ -413,7 +415,29 @@ def r7(ctx, facts):
                 sd = rb.single_def(op[1][0]) if op[0] in ("c", "m") else None
                 if sd and sd[0] == "stmt" and sd[3][0] == "agg" and sd[3][1][0] == "adt" and sd[3][1][2] == "None":
                     stores.append(bb)
-    central = bool(off_edges) and bool(stores) and all(not (set(rb.exits) & dj.feasible_reach_edge(u, v, removed_nodes=stores)) for (u, v) in off_edges)
+    # ... or filtered by the flag: `token_with_strategy.filter(|_| is_token_aware)` (the closure answers with the captured flag, nothing else)
+    filtered = False
+    for bb in sorted(rb.live_blocks):
+        for st in rb.stmts(bb):
+            if st[0] == "A" and st[2][0] == "agg" and st[2][1][0] == "adt" and st[2][1][1].endswith("ProcessedRoutingInfo") and "token_with_strategy" in (st[2][1][4] or []):
+                op = st[2][2][st[2][1][4].index("token_with_strategy")]
+                _, cs_, _ = backward_slice(rb, op)
+                for c in cs_:
+                    if (c.decl or c.name or "").split("::")[-1] != "filter" or len(c.args) != 2 or "Option<" not in rb.local_ty(c.args[0][1][0] if c.args[0][0] in ("c", "m") else 0):
+                        continue
+                    cd = rb.single_def(c.args[1][1][0]) if c.args[1][0] in ("c", "m") else None
+                    if not (cd and cd[0] == "stmt" and cd[3][0] == "agg" and cd[3][1][0] == "closure" and len(cd[3][2]) == 1):
+                        continue
+                    cb_ = facts.body(cd[3][1][1])
+                    from .c20 import slice_fields as _sf
+                    cap_is_flag = "is_token_aware" in _sf(rb, cd[3][2][0])
+                    # the closure: no calls, no branches, returns its one capture
+                    plain = cb_ is not None and not [1 for bb2, _c in cb_.calls() if bb2 in cb_.live_blocks] and not [1 for bb2 in cb_.live_blocks if cb_.term(bb2)[0] == "switch"]
+                    if cap_is_flag and plain:
+                        filtered = True
+    if filtered:
+        r.note("routing_info() keeps the token only under `filter(|_| is_token_aware)`")
+    central = filtered or bool(off_edges) and bool(stores) and all(not (set(rb.exits) & dj.feasible_reach_edge(u, v, removed_nodes=stores)) for (u, v) in off_edges)
     r.instance("routing-info-clears-token-when-unaware", True, "central clearing in routing_info(): %s" % central, rb.span, nontrivial=False)
     for meth in ("pick", "fallback"):
         b = method_bodies(facts, meth)[0]
@@ -454,6 +478,56 @@ def r8(ctx, facts):
                 seen, calls, _ = field_slice(b, op)
                 on_opt = [c for c in calls if c.args and c.args[0][0] in ("c", "m") and b.local_ty(c.args[0][1][0]).replace("&", "").startswith("core::option::Option<") and "NodeLocationPreference" in b.local_ty(c.args[0][1][0])]
                 if not on_opt:
+                    # match form: `match policy_preference { Some(p) => p, None => inherited }`
+                    dj8 = dj_of(b, facts)
+                    opt_locals = {l for l in range(len(b.locals)) if b.local_ty(l).replace("&", "").startswith("core::option::Option<") and "NodeLocationPreference" in b.local_ty(l)}
+
+                    def src_place(rv):
+                        """the place a use / reborrow rvalue reads, or None"""
+                        if rv[0] == "use" and rv[1][0] in ("c", "m"):
+                            return rv[1][1]
+                        if rv[0] == "ref":
+                            return rv[2]
+                        return None
+
+                    def chase(l, hops=0):
+                        """follow single-definition copies / reborrows"""
+                        while hops < 6:
+                            ds = [d for d in b.defs.get(l, []) if d[0] == "stmt"]
+                            if len(ds) != 1 or len(b.defs.get(l, [])) != 1:
+                                return l
+                            pl = src_place(ds[0][3])
+                            if pl is None or any(isinstance(e, list) and e[0] in ("f", "d") for e in pl[1]):
+                                return l
+                            l, hops = pl[0], hops + 1
+                        return l
+
+                    def payload_of_option(rv):
+                        pl = src_place(rv)
+                        if pl is None:
+                            return False
+                        if pl[0] in opt_locals and any(isinstance(e, list) and e[0] == "d" and e[1] == "Some" for e in pl[1]):
+                            return True
+                        if not any(isinstance(e, list) and e[0] in ("f", "d") for e in pl[1]):
+                            ds = [d for d in b.defs.get(pl[0], []) if d[0] == "stmt"]
+                            return len(ds) == 1 and len(b.defs.get(pl[0], [])) == 1 and payload_of_option(ds[0][3])
+                        return False
+                    l0 = chase(op[1][0]) if op[0] in ("c", "m") else None
+                    defs = [d for d in b.defs.get(l0, []) if d[0] == "stmt"] if l0 is not None else []
+                    keys = [("disc", (l, ())) for l in opt_locals]
+                    judged, good, has_payload = False, True, False
+                    for d in defs:
+                        sts = dj8.states_at(d[1])
+                        if payload_of_option(d[3]):
+                            judged = has_payload = True
+                        elif sts and all(any(in_set(st_.get(k), {0}) for k in keys) for st_ in sts):
+                            judged = True      # the inherited value, only where the policy has none
+                        elif len(defs) > 1:
+                            good = False
+                    if judged and len(defs) >= 2:
+                        n += 1
+                        r.instance("policy-preference-wins:" + fn_short(b.path), good and has_payload,
+                            "the effective preference is chosen by a match on the policy's Option<preference>: its payload must be taken when it is Some, the inherited one only when it is None", b.stmt_span(st))
                     continue
                 meths = sorted({(c.decl or c.name or "").split("::")[-1] for c in on_opt})
                 if all(m in ("as_ref", "copied", "cloned", "clone", "as_deref") for m in meths):
